@@ -309,6 +309,7 @@ def explore(chk, rng, n_random, n_dfs, tag):
         for p in model:
             f = p.split()
             mdl.append("done %s" % f[1] if f and f[0] == "done" else "blocked")
+        chk.traces_validated += 1
         if mdl != impl:
             chk.corr_break("rendezvous-trace", dict(inp, schedule=res["schedule"][:400]), impl, model)
 
